@@ -373,6 +373,15 @@ def record_race(draw, max_tasks=4, allow_big=True, with_globals=None):
         size = "small"
     big_task %= n_tasks
     tasks = [_task_spec(draw, i, size if i == big_task else "small") for i in range(n_tasks)]
+    # a task's name defaults to the name of its operation (docs/track.rst): in a class of cases one task carries the default name while
+    # another task with an explicit name runs the same operation (e.g. "warmup-term" and "term", both running operation "term")
+    if n_tasks >= 2 and draw(st.integers(0, 2)) == 0:
+        i = draw(st.integers(0, n_tasks - 1))
+        j = draw(st.integers(0, n_tasks - 2))
+        j = j if j < i else j + 1
+        tasks[j]["op"], tasks[j]["op_type"] = tasks[i]["op"], tasks[i]["op_type"]
+        if tasks[i]["op"] not in [t["name"] for t in tasks]:
+            tasks[i]["name"] = tasks[i]["op"]
     # schedule layout: indices grouped; a group of >= 2 is a parallel element
     layout, i = [], 0
     for k in groups:
